@@ -19,6 +19,7 @@ type Gates struct {
 	waiting []*waiter
 	hits    map[string]int
 	lastA   map[string]int64
+	recOnly map[string]bool
 	stuck   []string
 	rec     *Rec
 	record  bool
@@ -63,6 +64,16 @@ func (g *Gates) SetNamer(f func(erpc.Session) string) { g.mu.Lock(); g.namer = f
 // Record switches recording of point events on or off.
 func (g *Gates) Record(on bool) { g.mu.Lock(); g.record = on; g.mu.Unlock() }
 
+// RecordOnly records just the named points (when full recording is off).
+func (g *Gates) RecordOnly(pts ...string) {
+	g.mu.Lock()
+	g.recOnly = map[string]bool{}
+	for _, p := range pts {
+		g.recOnly[p] = true
+	}
+	g.mu.Unlock()
+}
+
 // Jitter enables random yields/sleeps at points (PCT-like perturbation).
 func (g *Gates) Jitter(seed int64, oneIn int) {
 	g.mu.Lock()
@@ -92,7 +103,7 @@ func (g *Gates) point(pt string, sess erpc.Session, a, b int64) {
 	g.mu.Lock()
 	g.hits[pt]++
 	g.lastA[pt] = a
-	rec := g.record
+	rec := g.record || g.recOnly[pt]
 	var nap time.Duration
 	yield := false
 	if g.jitter > 0 && g.rnd.Intn(g.jitter) == 0 {
